@@ -262,6 +262,11 @@ def run_case(ctx, env, prog, k, rw, flags, blocks, use_default):
 _rec = st.lists(st.tuples(st.sampled_from(["a", "b", "c"]), st.sampled_from([["lit", 0], ["lit", "x"], ["lit", None], ["list", []], ["inst", "D1"]])).map(
     lambda kv: [["lit", kv[0]], kv[1]]), max_size=3, unique_by=lambda kv: kv[0][1]).map(lambda l: ["dict", l])
 VALUES = st.one_of(vals.values(2), vals.values(1), _rec, st.lists(_rec, max_size=3).map(lambda l: ["list", l]), st.lists(_rec, max_size=3).map(lambda l: ["list", l]),
+                   # records inside every other container kind, the standard-library ones included
+                   st.tuples(st.sampled_from(["deque", "tuple", "set-of-tuples", "odict", "ddict", "dictval"]), st.lists(_rec, min_size=1, max_size=2)).map(
+                       lambda p: {"deque": ["deque", p[1]], "tuple": ["tuple", p[1]], "set-of-tuples": ["list", [["tuple", p[1]]]],
+                                  "odict": ["odict", [[["lit", "a"], p[1][0]]]], "ddict": ["ddict", [[["lit", 0], p[1][0]]]],
+                                  "dictval": ["dict", [[["lit", 1], p[1][0]]]]}[p[0]]),
                    st.sampled_from([["lit", True], ["lit", False], ["lit", 0], ["lit", 1]]),
                    st.sampled_from([["list", []], ["dict", []], ["set", []], ["lit", None], ["tuple", []], ["inst", "D1"], ["inst", "D2"], ["inst", "Base"]]))
 
